@@ -99,6 +99,17 @@ def gen_case(rng):
         case["is3mr"] = True
     if rng.random() < 0.05:
         case["label"] = "absent"          # no label column in the frame: every column is a feature
+    m = rng.random()
+    if m < 0.12:                          # rows that were shuffled / sampled: the labels are a permutation
+        idx = list(range(nrows))
+        rng.shuffle(idx)
+        case["index"] = idx
+    elif m < 0.24:                        # rows that were filtered: increasing labels with gaps
+        case["index"] = sorted(rng.sample(range(nrows * 2 + 3), nrows))
+    elif m < 0.30:                        # string row labels
+        idx = ["r%d" % i for i in range(nrows)]
+        rng.shuffle(idx)
+        case["index"] = idx
     return case
 
 
@@ -201,7 +212,7 @@ def evaluate(cases):
         new_names, new_cols = r["names"][nd:], r["cols"][nd:]
         fail = None
         if not r["index_ok"] or r["nrows"] != len(c["rows"]):
-            fail = ("row order preserved (the returned frame keeps the input's rows and RangeIndex)",
+            fail = ("original rows untouched (the returned frame keeps the input's rows, in order, under the input's row labels)",
                     "nrows=%d index_ok=%s" % (r["nrows"], r["index_ok"]))
         elif not vp:
             fail = ("the original columns are left untouched", "first %d columns of the result differ from the input" % nd)
@@ -246,12 +257,25 @@ def shrinks(case, fail):
         if case["label"] in case["names"]:
             keep.append(case["names"].index(case["label"]))
         rows = [[case["rows"][i][p] for p in keep] for i in w["rows"]]
-        out.append({"names": [case["names"][p] for p in keep], "rows": rows, "label": case["label"],
-                    "order": len(comb), "cap": 1000, "is3mr": False if len(comb) != 2 else case.get("is3mr", False)})
-        out.append(dict(case, rows=[case["rows"][i] for i in w["rows"]]))
-    out.append(dict(case, rows=case["rows"][:3]))
-    out.append(dict(case, rows=case["rows"][:max(3, len(case["rows"]) // 2)]))
+        sub = {"names": [case["names"][p] for p in keep], "rows": rows, "label": case["label"],
+               "order": len(comb), "cap": 1000, "is3mr": False if len(comb) != 2 else case.get("is3mr", False)}
+        if "index" in case:
+            sub["index"] = [case["index"][i] for i in w["rows"]]
+        out.append(sub)
+        out.append(restrict(case, w["rows"]))
+        if "index" in case:
+            out.append({k: v for k, v in sub.items() if k != "index"})
+    out.append(restrict(case, range(min(3, len(case["rows"])))))
+    out.append(restrict(case, range(max(3, len(case["rows"]) // 2))))
     return out
+
+
+def restrict(case, rows):
+    rows = [i for i in rows if i < len(case["rows"])]
+    c = dict(case, rows=[case["rows"][i] for i in rows])
+    if "index" in case:
+        c["index"] = [case["index"][i] for i in rows]
+    return c
 
 
 def old_encoding_aliases(case):
@@ -294,7 +318,20 @@ def check(run, replay):
             cases.extend(exhaustive_cases())
     verdicts = evaluate(cases)
 
-    hist = {"rows": {}, "order": {}, "binding_cap": 0, "is3mr": 0, "impl_errors": 0, "new_columns": 0,
+    # informational: the Python mirror of enc used by impl_c10.digest_exact is the Coq enc (sample tuples)
+    sample = []
+    for c in cases[:40]:
+        for row in c["rows"][:3]:
+            sample.append(list(row))
+    sample = sample[:100] + [[], [""], ["", ""], ["0123456789"], ["x" * 10, "y" * 100]]
+    try:
+        got = vlib.coq_eval("C10", HEADER, ["map enc [%s]" % "; ".join(vlib.strlist(t) for t in sample)])[0]
+        mirror = ["".join("%d:%s" % (len(v), v) for v in t) for t in sample]
+        run.cov["python_mirror_of_enc_equals_coq_enc_on_samples"] = [vlib.from_codes(x) for x in got] == mirror
+    except vlib.Broken:
+        run.cov["python_mirror_of_enc_equals_coq_enc_on_samples"] = None
+
+    hist = {"rows": {}, "order": {}, "non_default_row_index": sum(1 for c in cases if "index" in c), "binding_cap": 0, "is3mr": 0, "impl_errors": 0, "new_columns": 0,
             "plain_concatenation_would_alias": 0, "selection_is_first_cap_in_itertools_order": 0}
     failing = []
     for c, v in zip(cases, verdicts):
@@ -308,6 +345,8 @@ def check(run, replay):
         else:
             nd = len(c["names"])
             hist["new_columns"] += len(r["names"]) - nd
+            if r.get("digest_exact"):
+                hist["columns_equal_to_xxh64_of_model_enc"] = hist.get("columns_equal_to_xxh64_of_model_enc", 0) + r["digest_exact"][0]
             if 0 <= c["cap"] < v.get("ncand", 0) or c["cap"] < 0:
                 hist["binding_cap"] += 1
             exp = list(candidate_names(c).keys())
